@@ -352,17 +352,27 @@ def _wire_merkleblock(hdr, total, hashes_internal, flags):
     return out + spec_varint(len(flags)) + flags
 
 
-def _partial_path(n):
+PATTERNS = {
+    "all": lambda n, i: 1, "none": lambda n, i: 0, "even": lambda n, i: 1 - i % 2, "odd": lambda n, i: i % 2,
+    "first": lambda n, i: int(i == 0), "last": lambda n, i: int(i == n - 1), "ends": lambda n, i: int(i in (0, n - 1)),
+    "all-but-last": lambda n, i: int(i != n - 1), "thirds": lambda n, i: int(i % 3 == 0), "lcg": lambda n, i: ((i * 2654435761 + n) >> 7) & 1,
+}
+
+
+def _partial_path(n, pattern=None):
     mbm = loader.load("merkleblock")
     del shims.HASH_CALLS[:]
     txids = [SBytes.sym(f"t{i}", 32) for i in range(n)]
-    match = [SI.var(f"m{i}", 0, 1) for i in range(n)]
+    if pattern is None:
+        match = [SI.var(f"m{i}", 0, 1) for i in range(n)]
+    else:
+        match = [PATTERNS[pattern](n, i) for i in range(n)]
     hdr = SBytes.sym("hdr", 80)
     leaves = [t[::-1] for t in txids]
 
     def wit(env):
-        return {"n": n, "txids": [core.bytes_env(env, f"t{i}", 32).hex() for i in range(n)], "match": [env[f"m{i}"] for i in range(n)],
-                "hdr": core.bytes_env(env, "hdr", 80).hex()}
+        return {"n": n, "txids": [core.bytes_env(env, f"t{i}", 32).hex() for i in range(n)],
+                "match": [env[f"m{i}"] if pattern is None else match[i] for i in range(n)], "hdr": core.bytes_env(env, "hdr", 80).hex()}
     bits, hashes = bip37_build(leaves, [m == 1 for m in match])
     flags = pack_flags(bits)
     mb = mbm.MerkleBlock.parse(shims.BytesIOShim(_wire_merkleblock(hdr, n, hashes, flags)))
@@ -385,6 +395,18 @@ def ob_partial(n):
     r = sym_run(lambda: _partial_path(n), expect_classes=[f"{k} matched" for k in range(n + 1)], max_paths=5000)
     r["sample"] = {"transactions": n, "match subset": "n solver variables (all 2^n subsets)", "txids / header": "symbolic",
                    "subsets by number of matches": r["classes"]}
+    return r
+
+
+def ob_partial_large(ns, patterns):
+    """larger blocks (flag bytes / hash counts past the small-tree sizes) with fixed match patterns; ids and header symbolic"""
+    runs = []
+    for n in ns:
+        for pat in patterns:
+            k = sum(PATTERNS[pat](n, i) for i in range(n))
+            runs.append(sym_run(lambda: _partial_path(n, pat), expect_classes=[f"{k} matched"], max_paths=50))
+    r = merge_runs(runs)
+    r["sample"] = {"transactions": list(ns), "match patterns": list(patterns), "txids / header": "symbolic"}
     return r
 
 
@@ -959,6 +981,10 @@ def replay_headers(w):
 
 # ------------------------------------------------------------------------------------------------ registry
 
+def _chunks(xs, k):
+    return [xs[i:i + k] for i in range(0, len(xs), k)]
+
+
 def obligations(tier):
     q = tier == "quick"
     obs = []
@@ -972,6 +998,10 @@ def obligations(tier):
         obs.append(Ob("O4-retarget", ob_retarget, {"e": e}, replay="retarget", budget_s=600 if q else 1800))
     for n in range(6 if q else 10, 0, -1):
         obs.append(Ob("O2-partial-tree", ob_partial, {"n": n}, replay="partial", budget_s=600 if q else 1800))
+    big = [11, 12, 13, 15, 16, 17, 20, 21, 24, 31, 32, 33, 36, 44] if q else list(range(11, 70)) + [100, 127, 128, 129, 200, 255, 256, 257]
+    pats = ["all", "none", "even", "last", "ends", "all-but-last"] if q else list(PATTERNS)
+    for g in _chunks(big, 1 if q else 2):
+        obs.append(Ob("O2-partial-tree-large", ob_partial_large, {"ns": tuple(g), "patterns": tuple(pats)}, replay="partial", budget_s=600 if q else 2400))
     for n in range(4 if q else 6, 0, -1):
         obs.append(Ob("O3-tamper-hash", ob_tamper, {"n": n}, replay="tamper", budget_s=600 if q else 2400))
     obs.append(Ob("O1-merkle-root", ob_merkle_root, {"ns": (1, 2, 3, 4, 5)}, replay="merkle_root"))
